@@ -61,12 +61,12 @@ def replay_lexer(runner, ws, prop, h, vals, rec):
     """Build a real source text from the solver's assignment (initial comment depth d0, then the
     raw-token sequence), run the real `Lexer` (real logos DFA, no stub) on it natively and compare
     the delivered spans with the reference scan. A depth larger than the run can close behaves
-    like any other such depth, so d0 is replayed as min(d0, limit + 1) opening `/-`."""
+    like any other such depth: d0 is replayed exactly up to 1024 opening `/-`, beyond that as limit + 1."""
     m = re.search(r"at most (\d+) raw tokens|<=\s*(\d+) raw tokens", h.get("bounds", "<= 8 raw tokens"))
     limit = int((m.group(1) or m.group(2)) if m else 8)
     d0 = int.from_bytes(bytes(vals[0]), "little") if vals and len(vals[0]) == 8 else 0
     stream_vals = vals[1:] if vals and len(vals[0]) == 8 else vals
-    classes = [4] * min(d0, limit + 1) + decode_lexer_stream(stream_vals, limit)
+    classes = [4] * (d0 if d0 <= 1024 else limit + 1) + decode_lexer_stream(stream_vals, limit)
     src, spans = "", []
     for c in classes:
         lex = CLASS_TEXT[c]
@@ -128,7 +128,7 @@ def replay_tooling(runner, ws, prop, h, vals, rec):
     limit = int(m.group(1)) if m else 8
     d0 = int.from_bytes(bytes(vals[0]), "little")
     n = int.from_bytes(bytes(vals[2]), "little")
-    classes = [4] * min(d0, limit + 1) + [v[0] for v in vals[3:3 + n]]
+    classes = [4] * (d0 if d0 <= 1024 else limit + 1) + [v[0] for v in vals[3:3 + n]]
     src, spans = "", []
     for c in classes:
         lex = CLASS_TEXT[c]
